@@ -28,7 +28,7 @@ THEOREMS = [
     "Thr2Timer.reach_ok",
 ]
 RULE = ("cases = scheduler (Timeout/NewThread/ThreadPool/EventLoop) x 1..3 actions each scheduled now|relative|absolute with "
-        "delay -1..3 ticks at time 0..1 and disposed never or at a time around its due time x schedule (start thread + <=3 "
+        "delay -1..3 ticks (absolute due times also as aware datetimes in non-UTC zones) at time 0..1 and disposed never or at a time around its due time x schedule (start thread + <=3 "
         "preemptions); plus ImmediateScheduler schedule/relative/absolute with negative, zero and positive delays; "
         "non-trivial = a dispose races with a pending action (disposed while the scheduler thread exists and the action "
         "has not started) or a preemption switched threads; distinct by canonical JSON.")
@@ -62,7 +62,10 @@ def gen_item(rng, at=0):
     disp = rng.choice([None, None, due - 1, due - 1, due, due + 1, at])
     if disp is not None:
         disp = max(at, disp)
-    return {"how": how, "delay": delay, "at": at, "disp": disp}
+    it = {"how": how, "delay": delay, "at": at, "disp": disp}
+    if how == "abs" and rng.random() < 0.6:
+        it["tz"] = rng.choice([-11, -5, -1, 2, 9])  # due time as an aware datetime in a non-UTC zone
+    return it
 
 
 def cases(rng, tier):
@@ -85,7 +88,10 @@ def cases(rng, tier):
         yield sc
     for _ in range(fw.tier_scale(tier, 60, 400)):
         how = rng.choice(["schedule", "relative", "absolute"])
-        yield {"type": "imm", "how": how, "delay_us": rng.choice([-2000000, -1, 0, 0, 1, 500000, 3000000])}
+        c = {"type": "imm", "how": how, "delay_us": rng.choice([-2000000, -1, 0, 0, 1, 500000, 3000000])}
+        if how == "absolute" and rng.random() < 0.6:
+            c["tz"] = rng.choice([-11, -5, -1, 2, 9])
+        yield c
 
 
 _CACHE = {}
@@ -123,7 +129,12 @@ def run_imm(case):
             elif case["how"] == "relative":
                 s.schedule_relative(d, act)
             else:
-                s.schedule_absolute(T.EPOCH + d, act)
+                when = T.EPOCH + d
+                if case.get("tz") is not None:
+                    from datetime import timezone
+
+                    when = when.astimezone(timezone(timedelta(hours=case["tz"])))
+                s.schedule_absolute(when, act)
             out = "ran" if ran else "returned-without-running"
         except WouldBlockException:
             out = "wouldblock" if not ran else "ran-and-raised"
@@ -248,7 +259,8 @@ def extra(rng, tier):
     scs = []
     for kind in KINDS:
         for it in ({"how": "rel", "delay": 2, "at": 0, "disp": 1}, {"how": "rel", "delay": 1, "at": 0, "disp": 1},
-                   {"how": "abs", "delay": 2, "at": 0, "disp": None}, {"how": "now", "delay": 0, "at": 0, "disp": 0},
+                   {"how": "abs", "delay": 2, "at": 0, "disp": None}, {"how": "abs", "delay": 2, "at": 0, "disp": None, "tz": -5},
+                   {"how": "now", "delay": 0, "at": 0, "disp": 0},
                    {"how": "rel", "delay": 0, "at": 0, "disp": 0}, {"how": "rel", "delay": 2, "at": 0, "disp": 0}):
             scs.append({"type": "single", "sched": kind, "items": [it]})
         scs.append({"type": "multi", "sched": kind, "items": [{"how": "rel", "delay": 2, "at": 0, "disp": 1},
